@@ -82,6 +82,13 @@ def guards():
     add("ChefCache repaired", mc("ChefCache", cc, ["EveryCookUsesItsOwnState"]), None)
     add("ChefCache pool never dropped", mc("ChefCache", dict(cc, ClearPolicy='"never"'), ["EveryCookUsesItsOwnState"]), "EveryCookUsesItsOwnState")
     add("ChefCache pool dropped for new shapes only", mc("ChefCache", dict(cc, ClearPolicy='"new_shapes"'), ["EveryCookUsesItsOwnState"]), "EveryCookUsesItsOwnState")
+    for t in ("colander", "taste", "chk2plt", "mandoline"):
+        add("Cli %s repaired" % t, mc("MC_Cli", dict(SpeciesType='"str"', OnlyTool='"%s"' % t), ["MCRefines"]), None)
+    add("Cli chk2plt species declared int", mc("MC_Cli", dict(SpeciesType='"int"', OnlyTool='"chk2plt"'), ["MCRefines"]), "MCRefines")
+    cs = dict(NS=4, MaxSel=3, IndexMode='"list"')
+    add("ChefSel index list (the code)", mc("ChefSel", cs, ["OwnName"]), None)
+    add("ChefSel consecutive block read as a slice", mc("ChefSel", dict(cs, IndexMode='"slice_if_block"'), ["OwnName"]), "OwnName")
+    add("ChefSel sorted indexes", mc("ChefSel", dict(cs, IndexMode='"sorted"'), ["OwnName"]), "OwnName")
     add("PoolLife pool kept referenced", mc("PoolLife", dict(N=2, KeepRef="TRUE"), ["NoWedge"], props=["CallerFinishes"], spec="Spec"), None)
     add("PoolLife empty job, pool dropped", mc("PoolLife", dict(N=0, KeepRef="FALSE"), ["NoWedge"], spec="Spec"), "NoWedge")
     add("PoolLife workers faster than the task handler", mc("PoolLife", dict(N=2, KeepRef="FALSE"), ["NoWedge"], spec="Spec"), "NoWedge")
